@@ -290,6 +290,10 @@ var atoms = []string{
 func gen(rng *rand.Rand) string {
 	var b strings.Builder
 	if rng.Intn(12) == 0 {
+		// the directive at the very start, or after blank space (then it may or may not count as the directive: positions must be right either way)
+		if rng.Intn(3) == 0 {
+			b.WriteString([]string{"\n", "  ", "\t\n", "\r\n", " \n\n"}[rng.Intn(5)])
+		}
 		b.WriteString([]string{"-- atlas:delimiter //\n", "-- atlas:delimiter \\n\\n\n", "-- atlas:delimiter ;;\n", "-- atlas:delimiter -- end\n"}[rng.Intn(4)])
 	}
 	n := 1 + rng.Intn(9)
